@@ -244,7 +244,49 @@ func BuildVFG(p *Program) *VFG {
 		}
 	}
 	g.FinishExternal()
+	g.paramOut()
 	return g
+}
+
+// paramOut: a write through a reference-typed parameter (io.Copy(w, f) with w a parameter, a store
+// into a slice parameter's backing array) is observed by the caller through the argument it passed:
+// parameter -> write targets of the argument at every call site. Two rounds cover helpers of helpers.
+func (g *VFG) paramOut() {
+	for round := 0; round < 2; round++ {
+		for _, c := range g.Sites {
+			args := c.Common().Args
+			for _, fn := range g.Callees[c] {
+				off := 0
+				if c.Common().IsInvoke() {
+					off = 1
+				}
+				for i, a := range args {
+					pi := i + off
+					if pi >= len(fn.Params) || !isRefType(a.Type()) {
+						continue
+					}
+					prm := fn.Params[pi]
+					// only writer-like parameters (interfaces such as io.Writer / hash.Hash): data handed
+					// to them is observed by whoever supplied the writer
+					if _, isIface := prm.Type().Underlying().(*types.Interface); !isIface {
+						continue
+					}
+					written := false
+					for _, e := range g.In[Node(prm)] {
+						if e.Kind == EExtWrite || e.Kind == EStore {
+							written = true
+						}
+					}
+					if !written {
+						continue
+					}
+					for _, t := range g.writeTargets(a) {
+						g.add(prm, t, EExtWrite, c)
+					}
+				}
+			}
+		}
+	}
 }
 
 // isExternal: the call leaves first-party code (static external callee, or an
